@@ -592,8 +592,8 @@ class FunctionVerifier:
             q = f"a_q{next(self.ctx.counter)}"
             st.assume(f"(forall (({q} Int)) (! (=> (and (<= 0 {q}) (< {q} {n_.t})) (= (select {arr} {q}) {q})) :pattern ((select {arr} {q}))))")
             return SV(("Seq", "Int"), (n_.t, arr))
-        if name in ("np.empty", "np.zeros") and args:
-            shp = self.ev(args[0], st, spec)
+        if name in ("np.empty", "np.zeros") and (args or any(k.arg == "shape" for k in e.keywords)):
+            shp = self.ev(args[0] if args else next(k.value for k in e.keywords if k.arg == "shape"), st, spec)
             zero = name == "np.zeros"
             if shp.sort == "Int":
                 if not spec:
@@ -934,12 +934,22 @@ class FunctionVerifier:
         for n in ast.walk(ast.Module(body=body, type_ignores=[])):
             if isinstance(n, (ast.Assign, ast.AugAssign, ast.AnnAssign)):
                 targets = n.targets if isinstance(n, ast.Assign) else [n.target]
+                def stored(t):
+                    # the variable written by a target: the name itself, or the base of a subscript / attribute chain;
+                    # names that only occur inside an index expression (ret[a[i]] = ...) are read, not written
+                    if isinstance(t, (ast.Tuple, ast.List)):
+                        for el in t.elts:
+                            stored(el)
+                        return
+                    if isinstance(t, ast.Starred):
+                        return stored(t.value)
+                    while isinstance(t, (ast.Subscript, ast.Attribute)):
+                        t = t.value
+                    if isinstance(t, ast.Name):
+                        names.add(t.id)
+
                 for t in targets:
-                    for x in ast.walk(t):
-                        if isinstance(x, ast.Name) and isinstance(x.ctx, ast.Store):
-                            names.add(x.id)
-                        if isinstance(x, ast.Subscript) and isinstance(x.value, ast.Name):
-                            names.add(x.value.id)
+                    stored(t)
             elif isinstance(n, (ast.For,)):
                 for x in ast.walk(n.target):
                     if isinstance(x, ast.Name):
